@@ -150,3 +150,243 @@ Proof.
   - destruct (mismatch sz (f_len f)); intros H; inversion H; subst; cbn; try discriminate.
     intros H2; inversion H2; subst. repeat split; destruct k; discriminate.
 Qed.
+
+(* ====================================================================== *)
+(* The directory after a restart: exactly the files of the indexed entries (C04 across a restart);
+   an image that fits is kept whole. *)
+From BR Require Proofs.Disk_inv1.
+
+(* a file name as the loader accepts it: compressed CAS names carry a positive logical size, all
+   other names none *)
+Definition path_wf (f : file) : Prop :=
+  if is_cas_key (p_key (f_path f)) && negb (p_legacy (f_path f))
+  then 0 < p_size (f_path f) else p_size (f_path f) = 0.
+
+Definition file_entry (f : file) : entry := mkEntry (p_key (f_path f)) (item_of_file f).
+
+Lemma file_entry_path f : path_wf f -> Disk_inv1.entry_path (file_entry f) = f_path f.
+Proof.
+  unfold path_wf, Disk_inv1.entry_path, file_entry, path_of, item_of_file. simpl.
+  destruct (f_path f) as [k s r lg]. simpl.
+  destruct (is_cas_key k && negb lg); intros H.
+  - replace (s >? 0) with true by lia. reflexivity.
+  - subst s. reflexivity.
+Qed.
+
+(* directory invariant of the loading loop: files = files of indexed and queued entries + files not
+   looked at yet *)
+Record DirInv (d : dstate) (rest : list file) : Prop := mkDirInv {
+  di_perm : Permutation (map f_path (files d))
+              (map Disk_inv1.entry_path (all_entries (lru d)) ++ map f_path rest);
+  di_nodup : NoDup (map f_path (files d));
+  di_ent : forall en, In en (all_entries (lru d)) ->
+             exists f, find_file (Disk_inv1.entry_path en) (files d) = Some f /\ f_len f = sizeOnDisk (evalue en);
+  di_rest : forall f, In f rest -> find_file (f_path f) (files d) = Some f }.
+
+Lemma dir_remove d rest p l' :
+  DirInv d rest -> all_entries l' = all_entries (lru d) ->
+  forall rest', Permutation (map f_path rest) (p :: map f_path rest') -> incl rest' rest ->
+  DirInv (mkD l' (remove_file p (files d)) (handed d)) rest'.
+Proof.
+  intros [DP DN DE DR] Hae rest' HPr Hincl.
+  assert (HP0 : Permutation (map f_path (files d))
+                  (p :: map Disk_inv1.entry_path (all_entries (lru d)) ++ map f_path rest')).
+  { etransitivity; [exact DP|]. etransitivity; [apply Permutation_app_head; exact HPr|].
+    apply Permutation_sym, Permutation_middle. }
+  assert (HND : NoDup (p :: map Disk_inv1.entry_path (all_entries (lru d)) ++ map f_path rest'))
+    by (eapply Permutation_NoDup; eassumption).
+  apply NoDup_cons_iff in HND as [Hn HND'].
+  assert (Hin : In p (map f_path (files d))).
+  { eapply Permutation_in; [apply Permutation_sym; exact HP0|left; reflexivity]. }
+  pose proof (Disk_inv1.remove_file_perm p (files d) Hin) as HPf.
+  constructor; simpl; rewrite ?Hae.
+  - apply (Permutation_cons_inv (a := p)). etransitivity; [apply Permutation_sym; exact HPf|exact HP0].
+  - pose proof (Permutation_NoDup HPf DN) as H. inversion H; assumption.
+  - intros en Hen. destruct (DE en Hen) as (f & Hf & Hl). exists f. split; [|exact Hl].
+    rewrite Disk_inv1.find_file_remove_other; [exact Hf|].
+    intros Heq. apply Hn. apply in_or_app. left. rewrite <- Heq. apply in_map. exact Hen.
+  - intros f Hf. rewrite Disk_inv1.find_file_remove_other; [apply DR, Hincl, Hf|].
+    intros Heq. apply Hn. apply in_or_app. right. rewrite <- Heq. apply in_map. exact Hf.
+Qed.
+
+Lemma load_loop_dir fs : forall d, Inv (lru d) -> Forall file_sane fs -> Forall path_wf fs ->
+  DirInv d fs -> DirInv (load_loop fs d) [].
+Proof.
+  induction fs as [|f t IH]; intros d HI HF HW HD; simpl; [exact HD|].
+  inversion HF as [|? ? Hf Ht]; subst. inversion HW as [|? ? Hwf Hwt]; subst.
+  destruct (LRU.add (p_key (f_path f)) (item_of_file f) (lru d)) as [l' r] eqn:E.
+  pose proof (add_spec _ _ _ _ _ HI (item_of_file_ok f Hf) E) as (HI' & _ & _ & _ & Hcase).
+  destruct Hcase as [(-> & Ho & Hq & _)|(-> & HP)].
+  - apply IH; simpl; try assumption.
+    apply (dir_remove d (f :: t) (f_path f) l' HD); [unfold all_entries; rewrite Ho, Hq; reflexivity| |].
+    + reflexivity.
+    + apply incl_tl, incl_refl.
+  - apply IH; simpl; try assumption. destruct HD as [DP DN DE DR].
+    constructor; simpl.
+    + etransitivity; [exact DP|]. rewrite (Permutation_map Disk_inv1.entry_path HP). simpl.
+      fold (file_entry f). rewrite (file_entry_path f Hwf). apply Permutation_sym, Permutation_middle.
+    + exact DN.
+    + intros en Hen. apply (Permutation_in _ HP) in Hen. destruct Hen as [<-|Hen]; [|apply DE; exact Hen].
+      exists f. fold (file_entry f). rewrite (file_entry_path f Hwf). split; [apply DR; left; reflexivity|reflexivity].
+    + intros f' Hf'. apply DR. right. exact Hf'.
+Qed.
+
+Lemma drain_all_dir n : forall d, Inv (lru d) -> DirInv d [] -> DirInv (drain_all n d) [].
+Proof.
+  induction n as [|n IH]; intros d HI HD; simpl; [exact HD|].
+  destruct (Disk.evictor_step d) as [d'|] eqn:E; [|exact HD].
+  destruct (disk_evictor_inv d d' HI E) as (HI' & _). apply IH; [exact HI'|].
+  unfold Disk.evictor_step in E. pose proof (evictor_step_spec (lru d) HI) as HS.
+  destruct (LRU.evictor_step (lru d)) as [l' [en|]]; [|discriminate]. inversion E; subst d'; clear E.
+  destruct HS as (_ & _ & _ & _ & Ho & _ & Hq).
+  destruct HD as [DP DN DE DR]. simpl in DP. rewrite app_nil_r in DP.
+  fold (Disk_inv1.entry_path en). set (p := Disk_inv1.entry_path en) in *.
+  assert (HA : forall e, In e (all_entries l') -> In e (all_entries (lru d))).
+  { unfold all_entries. rewrite Ho, Hq. intros e. rewrite !in_app_iff. simpl. tauto. }
+  assert (HP0 : Permutation (map f_path (files d)) (p :: map Disk_inv1.entry_path (all_entries l'))).
+  { etransitivity; [exact DP|]. unfold all_entries. rewrite Ho, Hq, !map_app. simpl.
+    apply Permutation_sym, Permutation_middle. }
+  assert (HND : NoDup (p :: map Disk_inv1.entry_path (all_entries l'))) by (eapply Permutation_NoDup; eassumption).
+  apply NoDup_cons_iff in HND as [Hn _].
+  assert (Hin : In p (map f_path (files d))).
+  { eapply Permutation_in; [apply Permutation_sym; exact HP0|left; reflexivity]. }
+  pose proof (Disk_inv1.remove_file_perm p (files d) Hin) as HPf.
+  constructor; simpl.
+  - rewrite app_nil_r. apply (Permutation_cons_inv (a := p)).
+    etransitivity; [apply Permutation_sym; exact HPf|exact HP0].
+  - pose proof (Permutation_NoDup HPf DN) as H. inversion H; assumption.
+  - intros e He. destruct (DE e (HA e He)) as (f & Hf & Hl). exists f. split; [|exact Hl].
+    rewrite Disk_inv1.find_file_remove_other; [exact Hf|].
+    intros Heq. apply Hn. rewrite <- Heq. apply in_map. exact He.
+  - intros f [].
+Qed.
+
+Lemma find_file_self fs : NoDup (map f_path fs) -> forall f, In f fs -> find_file (f_path f) fs = Some f.
+Proof.
+  induction fs as [|x t IH]; simpl; intros ND f Hin; [tauto|]. inversion ND as [|? ? Hn ND']; subst.
+  destruct Hin as [->|Hin]; [rewrite Disk_inv1.path_eqb_refl; reflexivity|].
+  destruct (path_eqb (f_path x) (f_path f)) eqn:E; [|apply IH; assumption].
+  apply Disk_inv1.path_eqb_eq in E. exfalso. apply Hn. rewrite E. apply in_map. exact Hin.
+Qed.
+
+(* C08 / C04 across a restart: after recovery the directory holds exactly the files of the indexed
+   entries, each one of the image's files with the recorded length *)
+Theorem recover_dir mx hd image :
+  0 < mx -> NoDup (map f_path image) -> Forall file_sane image -> Forall path_wf image ->
+  let d := recover mx hd image in
+  Permutation (map f_path (files d)) (map Disk_inv1.entry_path (map ent (order (lru d)))) /\
+  NoDup (map f_path (files d)) /\
+  (forall e, In e (order (lru d)) ->
+     exists f, In f image /\ find_file (Disk_inv1.entry_path (ent e)) (files d) = Some f
+               /\ f_len f = sizeOnDisk (evalue (ent e))).
+Proof.
+  intros Hm HN HF HW d.
+  destruct (recover_inv mx hd image Hm HF) as (_ & _ & Hq & _). fold d in Hq.
+  unfold d, recover in *.
+  set (d0 := mkD (LRU.init mx hd) image []) in *.
+  assert (HI0 : Inv (lru d0)) by (apply init_inv; exact Hm).
+  assert (HD0 : DirInv d0 image).
+  { constructor; simpl; [reflexivity|exact HN|intros en []|apply find_file_self; exact HN]. }
+  pose proof (load_loop_dir image d0 HI0 HF HW HD0) as HD1.
+  pose proof (load_loop_inv image d0 HI0 HF) as HI1.
+  pose proof (drain_all_dir (List.length (evq (lru (load_loop image d0)))) _ HI1 HD1) as [DP DN DE _].
+  set (d2 := drain_all _ _) in *.
+  unfold all_entries in DP, DE. rewrite Hq in DP, DE. simpl in DP. rewrite !app_nil_r in DP.
+  split; [exact DP|]. split; [exact DN|].
+  intros e He. destruct (DE (ent e)) as (f & Hf & Hl); [rewrite app_nil_r; apply in_map; exact He|].
+  exists f. split; [|split; assumption].
+  apply (recover_files mx hd image). unfold recover. fold d0. fold d2. eapply find_file_In. exact Hf.
+Qed.
+
+(* ---------------- an image that fits is kept whole ---------------- *)
+
+Definition fkey (f : file) : string := p_key (f_path f).
+Definition fblocks (f : file) : Z := roundUp4k (f_len f).
+
+Lemma find_key_notin k l : ~ In k (map key_of l) -> find_key k l = None.
+Proof.
+  induction l as [|e t IH]; simpl; intros H; [reflexivity|].
+  destruct (String.eqb (ekey (ent e)) k) eqn:E.
+  - apply String.eqb_eq in E. exfalso. apply H. left. exact E.
+  - apply IH. intros Hx. apply H. right. exact Hx.
+Qed.
+
+Lemma evict_loop_idle cond l s : cond (cur s) = false -> evict_loop cond l s = (s, false).
+Proof. intros H. destruct l; simpl; rewrite H; reflexivity. Qed.
+
+(* adding a new key that fits: accepted, appended, nothing evicted *)
+Local Transparent LRU.add.
+Lemma add_fits k v s : Inv s -> find_key k (order s) = None -> 0 <= sizeOnDisk v ->
+  cur s + roundUp4k (sizeOnDisk v) <= maxs s ->
+  exists s', add k v s = (s', Ok true) /\ order s' = order s ++ [mkElem (next s) (mkEntry k v)]
+             /\ evq s' = evq s /\ cur s' = cur s + roundUp4k (sizeOnDisk v) /\ maxs s' = maxs s.
+Proof.
+  intros HI Hf Hv Hfit. pose proof (inv_res_le_cur s HI) as Hrc.
+  destruct HI as ([_ _ _ _ _ Hr _ _ _] & _ & _).
+  pose proof (roundUp4k_nonneg _ Hv) as Hnn.
+  unfold add. set (r := roundUp4k (sizeOnDisk v)) in *.
+  replace (r >? maxs s) with false by lia.
+  change (order (upd_peak r s)) with (order s). rewrite Hf.
+  change (res (upd_peak r s)) with (res s). change (maxs (upd_peak r s)) with (maxs s).
+  replace (res s + r >? maxs s) with false by lia.
+  unfold evict_while. rewrite evict_loop_idle; [|simpl; lia].
+  eexists. split; [reflexivity|]. simpl. repeat split; reflexivity.
+Qed.
+Local Opaque LRU.add.
+
+Lemma load_loop_fits rest : forall d done,
+  Inv (lru d) ->
+  map ent (order (lru d)) = map file_entry done -> evq (lru d) = [] ->
+  cur (lru d) = sumZ fblocks done ->
+  NoDup (map fkey (done ++ rest)) -> Forall file_sane rest ->
+  sumZ fblocks (done ++ rest) <= maxs (lru d) ->
+  let d' := load_loop rest d in
+  files d' = files d /\ map ent (order (lru d')) = map file_entry (done ++ rest) /\ evq (lru d') = []
+  /\ Inv (lru d').
+Proof.
+  induction rest as [|f t IH]; intros d done HI Ho Hq Hc HN HF Hfit; simpl.
+  - rewrite app_nil_r. auto.
+  - inversion HF as [|? ? Hf Ht]; subst.
+    assert (Hnone : find_key (fkey f) (order (lru d)) = None).
+    { apply find_key_notin. intros Hin.
+      assert (Hk : map key_of (order (lru d)) = map fkey done).
+      { unfold key_of. rewrite <- (map_map ent ekey), Ho, map_map. reflexivity. }
+      rewrite Hk in Hin. rewrite map_app in HN. simpl in HN. apply NoDup_remove_2 in HN.
+      apply HN. apply in_or_app. left. exact Hin. }
+    assert (Hsum : sumZ fblocks (done ++ f :: t) = sumZ fblocks done + fblocks f + sumZ fblocks t)
+      by (rewrite sumZ_app; simpl; lia).
+    assert (Hnn : 0 <= sumZ fblocks t).
+    { apply sumZ_nonneg. intros x Hx. rewrite Forall_forall in Ht. apply roundUp4k_nonneg, (Ht x Hx). }
+    destruct (add_fits (fkey f) (item_of_file f) (lru d) HI Hnone) as (s' & EA & Ho' & Hq' & Hc' & Hm').
+    { simpl. apply Hf. }
+    { simpl. unfold fblocks in *. lia. }
+    unfold fkey in EA. rewrite EA.
+    pose proof (add_spec _ _ _ _ _ HI (item_of_file_ok f Hf) EA) as (HI' & _).
+    specialize (IH (mkD s' (files d) (handed d)) (done ++ [f])). simpl in IH.
+    rewrite <- app_assoc in IH. simpl in IH. apply IH; try assumption.
+    + rewrite Ho', !map_app, Ho. reflexivity.
+    + congruence.
+    + rewrite Hc', sumZ_app, Hc. simpl. unfold fblocks. lia.
+    + congruence.
+Qed.
+
+(* C08: if the keys of the image are pairwise distinct and the image fits into max_size, the restart
+   keeps every file and indexes it under its key with the item the loader derives from it *)
+Theorem recover_keeps_when_fits mx hd image :
+  0 < mx -> NoDup (map fkey image) -> Forall file_sane image ->
+  sumZ fblocks image <= mx ->
+  let d := recover mx hd image in
+  files d = image /\ map ent (order (lru d)) = map file_entry image /\
+  (forall f, In f image -> peek (fkey f) (lru d) = Some (item_of_file f)).
+Proof.
+  intros Hm HN HF Hfit d. unfold d, recover.
+  set (d0 := mkD (LRU.init mx hd) image []).
+  assert (HI0 : Inv (lru d0)) by (apply init_inv; exact Hm).
+  destruct (load_loop_fits image d0 [] HI0 eq_refl eq_refl eq_refl HN HF Hfit) as (H1 & H2 & H3 & HI1).
+  simpl in H1, H2. rewrite H3. simpl. split; [exact H1|]. split; [exact H2|].
+  intros f Hin. apply (in_map file_entry) in Hin. rewrite <- H2 in Hin.
+  apply in_map_iff in Hin as (e & He & Hine).
+  destruct HI1 as ([Hk _ _ _ _ _ _ _ _] & _). unfold peek.
+  rewrite (find_key_Some_iff (fkey f) _ Hk e Hine); [rewrite He; reflexivity|].
+  unfold key_of. rewrite He. reflexivity.
+Qed.
